@@ -214,9 +214,12 @@ def scene_init(c):
         order = list(scalars)
         if order and d(st.booleans()):
             order = order[::-1]
+        first = None
         for k, (p, t, ln) in enumerate(order):
             if d(st.integers(0, 3)) == 0:
                 continue
+            if first is None:
+                first = (p, t, ln)
             if ln:
                 idx = d(st.integers(0, ln - 1))
                 parts.append(".%s[%d] = %s" % (p, idx, small(c.draw, t)))
@@ -225,7 +228,8 @@ def scene_init(c):
             else:
                 parts.append(".%s = %s" % (p, leaf_value(c, t, k)))
         if form == "nested-override" and parts:
-            parts.append(parts[0].split("=")[0] + "= " + (leaf_value(c, order[0][1], 0) if not order[0][2] else small(c.draw, order[0][1])))
+            # (the value must have the type of the member that parts[0] designates, not of the first member of the order)
+            parts.append(parts[0].split("=")[0] + "= " + (leaf_value(c, first[1], 0) if not first[2] else small(c.draw, first[1])))
         init = "{ %s }" % ", ".join(parts) if parts else "{ 0 }"
     elif form == "positional-partial":
         init = "{ 0 }"
@@ -397,6 +401,39 @@ def scene_vla(c):
     c.labels.add("vla")
 
 
+def scene_anon(c):
+    """Members of anonymous structs and unions are members of the enclosing type; members declared after an anonymous
+    member (at any depth, also inside further anonymous members) keep their own offsets."""
+    d = c.draw
+    f = c.uid("anon")
+    ty = ["int", "long", "char", "short", "double", "unsigned char"]
+    k = [0]
+
+    def mem():
+        k[0] += 1
+        return "%s m%d;" % (d(st.sampled_from(ty)), k[0])
+
+    def agg(depth):
+        parts = []
+        for _ in range(d(st.integers(1, 4))):
+            if depth < 2 and d(st.integers(0, 2)) == 0:
+                parts.append("%s { %s };" % (d(st.sampled_from(["struct", "struct", "union"])), agg(depth + 1)))
+            else:
+                parts.append(mem())
+        return " ".join(parts)
+    body_t = "%s struct { %s }; %s union { %s }; %s" % (mem(), agg(1), mem(), agg(1), mem())
+    n = k[0]
+    # union members overlap: write and read back one member at a time for those; struct members keep independent values
+    lines = ["struct %s_t s = { 0 }, *p = &s;" % f]
+    for i in range(1, n + 1):
+        lines.append("%s.m%d = (%d); chk_i64((long)%s.m%d); chk_i64((char *)&%s.m%d - (char *)&s); chk_u64(__builtin_offsetof(struct %s_t, m%d));"
+                     % ("s" if i % 2 else "(*p)", i, i * 3 + 1, "p[0]" if i % 3 == 0 else "s", i, "s" if i % 2 == 0 else "p[0]", i, f, i))
+    lines.append("chk_u64(sizeof s);")
+    c.funcs.append("struct %s_t { %s };\nstatic void %s(void) {\n\t%s\n}" % (f, body_t, f, "\n\t".join(lines)))
+    c.calls.append("%s();" % f)
+    c.labels.add("anonymous-members")
+
+
 def scene_alloca(c):
     """Blocks from alloca live until the function returns: a call site executed several times (loop, backward goto) hands
     out a fresh block each time, whatever the form of the size expression."""
@@ -503,7 +540,7 @@ def scene_float(c):
 
 
 SCENES = [scene_struct_copy, scene_struct_copy, scene_init, scene_init, scene_control, scene_calls, scene_calls,
-          scene_vla, scene_pointers, scene_statics, scene_arith_loop, scene_float, scene_alloca]
+          scene_vla, scene_pointers, scene_statics, scene_arith_loop, scene_float, scene_alloca, scene_anon]
 
 
 @st.composite
